@@ -151,6 +151,23 @@ def group_lp():
     if not isinstance(cut.ops[0], ast.LtE):
         raise FailClosed("solutions: cut is not <=")
     add("lp_cut_rhs", ["n"], "Q", cut.comparators[0], {"len(vv)": "n"}, "lp_cut_rhs")
+    # ---- CBC.getValue(): which integral variables are read as binaries (bool): the test on the bounds
+    gv = func(tree("lpinterface.py"), "CBC.getValue")
+    isint = one([n for n in ast.walk(gv) if isinstance(n, ast.If) and "var.integer()" in ast.unparse(n.test)], "getValue: integrality test")
+    if ast.unparse(isint.test) != "hasattr(var, 'integer') and var.integer()":
+        raise FailClosed("getValue: integrality test changed: " + ast.unparse(isint.test))
+    tests = [n for n in ast.walk(isint) if isinstance(n, ast.If) and n is not isint]
+    bt = one(tests, "getValue: binary test inside the integral branch")
+    if not (len(bt.body) == 1 and isinstance(bt.body[0], ast.Return) and ast.unparse(bt.body[0].value) == "x > 0"):
+        raise FailClosed("getValue: the binary branch does not return `x > 0`: " + ast.unparse(bt.body[0]))
+    rets = [ast.unparse(n.value) for n in ast.walk(gv) if isinstance(n, ast.Return)]
+    if sorted(rets) != ["x", "x", "x > 0"]:
+        raise FailClosed(f"getValue: return statements changed: {rets}")
+    add("lp_reads_binary", ["lb", "ub", "solution_prec"], "bool", bt.test,
+        {"var.lb()": "lb", "var.ub()": "ub", "SOLUTION_PRECISION": "solution_prec"}, "lp_reads_binary")
+    isb = func(tree("lpinterface.py"), "CBC.is_binary")
+    if [ast.unparse(n.value) for n in ast.walk(isb) if isinstance(n, ast.Return)] != ["isinstance(self.getValue(v), bool)"]:
+        raise FailClosed("CBC.is_binary is no longer `isinstance(self.getValue(v), bool)`")
     return out
 
 
